@@ -304,7 +304,10 @@ class VSocket(object):
         return 1000 + self.sid
 
     def settimeout(self, t):
-        pass
+        self.timeout = t        # honoured by reads that have to wait: the peer may be slower than any timeout
+
+    def gettimeout(self):
+        return getattr(self, 'timeout', None)
 
     def setsockopt(self, *a):
         pass
@@ -352,6 +355,13 @@ class VFile(object):
             s.log('read', sock=self.sock.sid, want=0, got=0)
             return b''
         me = s.me()
+        if getattr(self.sock, 'timeout', None) is not None and not self._readable():
+            # the socket has a timeout and nothing has arrived: the rest may take longer than any timeout
+            s.yield_point()
+            if not self._readable():
+                s.log('read', sock=self.sock.sid, want=n, got=-1, why='timeout')
+                import socket as _rs
+                raise _rs.timeout('timed out')
         if me is not None:
             me.waiting_read = True
         try:
@@ -401,6 +411,17 @@ class VFile(object):
         self.closed = True
         s.progress()
         s.log('fclose', sock=self.sock.sid, again=was)
+        # CPython: a closed SocketIO drops its reference to the socket object; a socket object nothing refers to any more
+        # is finalised there and then, which closes the descriptor (ResourceWarning: unclosed socket) - the peer sees it
+        import sys as _sys
+        sk = self.sock
+        if not was and not sk.closed and sk.connected and _sys.getrefcount(sk) <= 3:
+            sk.closed = True
+            if sk.session is not None and not sk.session.cli_closed:
+                sk.session.cli_closed = True
+                if not sk.session.cli_shut and hasattr(sk.session.script, 'on_client_close'):
+                    sk.session.script.on_client_close(sk.session)
+            s.log('sclose', sock=sk.sid, again=False, why='unreferenced')
 
 
 class VSocketModule(object):
